@@ -182,7 +182,9 @@ def check_case_keys(acc):
     import itertools
 
     vals = ['"A"', "{B}", "c", '"1990"', "{1990}", "1990"]
-    for keys in (("Title", "title"), ("title", "Title", "TITLE"), ("Year", "year"), ("a", "A", "b")):
+    # ... and a key held twice (the inner entry of a duplicate-field block, an entry built by a program): every occurrence
+    # is a field of its own for the strip; one record per key, so reuse is judged where the occurrences agree on it
+    for keys in (("Title", "title"), ("title", "Title", "TITLE"), ("Year", "year"), ("a", "A", "b"), ("note", "note"), ("a", "b", "a")):
         for vs in itertools.product(vals, repeat=len(keys)):
             for inplace in (True, False):
                 e = Entry("article", "k", [Field(k, v) for k, v in zip(keys, vs)])
@@ -201,6 +203,8 @@ def check_case_keys(acc):
                 acc.step(("casekeys", keys, vs), "remove+add", canon(got))
                 if mid != exp_mid:
                     acc.violation({"oracle": "strip_exactly_one_layer", "kind": "field", "enclosing": "mixed"}, {"case": case, "observed": mid, "expected": exp_mid})
+                elif len(set(keys)) < len(keys) and any(len({ref_strip(v)[1] for k2, v in zip(keys, vs) if k2 == k}) > 1 for k in keys):
+                    acc.count("repeated_key_with_two_enclosings_reuse_not_judged")
                 elif got != list(zip(keys, vs)):
                     acc.violation(
                         {"oracle": "reuse_restores_original", "kind": "field", "enclosing": "keys differing in case"},
@@ -222,15 +226,17 @@ def check_add(value, acc):
     """(d) the integer rule and the default/reuse precedence, on fields and strings."""
     for key in KEYS:
         for opts in OPTIONS:
-            for meta_mode in ("absent", "recorded{", 'recorded"', "recorded-none", "other-fields-only"):
+            for meta_mode in ("absent", "recorded{", 'recorded"', "recorded-none", "other-fields-only", "empty-record"):
                 for kind in ("field", "string"):
-                    if kind == "string" and (key not in (KEYS[0], "year", "volume") or meta_mode == "other-fields-only"):
+                    if kind == "string" and (key not in (KEYS[0], "year", "volume") or meta_mode in ("other-fields-only", "empty-record")):
                         continue
                     acc.trace()
-                    recorded = {"absent": None, "recorded{": "{", 'recorded"': '"', "recorded-none": "no-enclosing", "other-fields-only": None}[meta_mode]
+                    recorded = {"absent": None, "recorded{": "{", 'recorded"': '"', "recorded-none": "no-enclosing", "other-fields-only": None, "empty-record": None}[meta_mode]
                     if kind == "field":
                         e = Entry("article", "k", [Field("other", "o"), Field(key, value)])
-                        if meta_mode == "other-fields-only":
+                        if meta_mode == "empty-record":
+                            e.parser_metadata["removed_enclosing"] = {}  # (the entry had no fields when its enclosings were removed)
+                        elif meta_mode == "other-fields-only":
                             e.parser_metadata["removed_enclosing"] = {"other": "{"}
                         elif recorded is not None:
                             e.parser_metadata["removed_enclosing"] = {"other": "{", key: recorded}
@@ -279,7 +285,7 @@ def check_add(value, acc):
                         )
                     if kind == "field":
                         o = b.fields[0].value
-                        if o != (enc("o", "{") if (opts[1] and meta_mode not in ("absent",)) else enc("o", opts[0])):
+                        if o != (enc("o", "{") if (opts[1] and meta_mode not in ("absent", "empty-record")) else enc("o", opts[0])):
                             acc.violation(
                                 {"oracle": "enclosing_choice_other_field", "reuse": opts[1], "metadata": meta_mode},
                                 {"case": case, "observed": o, "expected": "recorded enclosing if reuse else default"},
